@@ -1,7 +1,7 @@
 #[cfg(lbfs_torrent_bootstrap_verif)]
-use std::{collections::HashMap, io::{Seek, SeekFrom, Write as IoWrite}, sync::Mutex};
+use std::{collections::HashMap, io::{Seek, SeekFrom, Write as IoWrite}};
 #[cfg(lbfs_torrent_bootstrap_verif)]
-use crate::verif_shim::fs::{self, OpenOptions};
+use crate::verif_shim::{fs::{self, OpenOptions}, sync::Mutex};
 #[cfg(not(lbfs_torrent_bootstrap_verif))]
 use std::{collections::HashMap, fs::{self, OpenOptions}, io::{Seek, SeekFrom, Write as IoWrite}, sync::Mutex};
 
